@@ -311,13 +311,13 @@ theorem allSome_cons_some {α β} {a : α} {b : Option β} {xs : List (α × Opt
 /-- all arguments known to the analysis: the parameter values are literals / defaults, hashed in the signature -/
 theorem const_case (U : Universe) {m : Nat} {args : List AstArg} {kwargs : List (String × AstArg)}
     (results : List RVal) (env : Env) (rtA : List (Option RtExpr)) (rtK : List (String × Option RtExpr))
-    (hargs : ∀ v, AstArg.const v ∈ args → U.vals v) (hkw : ∀ n v, (n, AstArg.const v) ∈ kwargs → U.vals v) :
+    (hargs : ∀ v, AstArg.const v ∈ args → U.avals v) (hkw : ∀ n v, (n, AstArg.const v) ∈ kwargs → U.avals v) :
     ∀ (ps : List Param) (idx : Nat) (named : List (String × Option Sg)) (kvs : List (String × Sg)) (env' : Env),
-      (∀ p ∈ ps, ∀ d, p.default = some d → U.vals d) →
+      (∀ p ∈ ps, ∀ d, p.default = some d → U.avals d) →
       getArgCtxAstFrom m args kwargs idx ps = .ok named → allSome named = some kvs →
       bindRun ps (zipArgs results env args rtA) (zipKw results env kwargs rtK) idx = some env' →
       ∃ vals : Vals, named = vals.named ∧ env' = vals.env ∧ vals.map (fun x => x.1) = ps.map Param.name ∧
-        ∀ x ∈ vals, ddsHash m x.2.1 = .ok x.2.2 ∧ U.vals x.2.1
+        ∀ x ∈ vals, ddsHash m x.2.1 = .ok x.2.2 ∧ U.avals x.2.1
   | [], idx, named, kvs, env', _, hn, _, hb => by
     simp only [getArgCtxAstFrom, Except.ok.injEq] at hn
     rw [bindRun] at hb
@@ -340,7 +340,7 @@ theorem const_case (U : Universe) {m : Nat} {args : List AstArg} {kwargs : List 
       subst hb
       obtain ⟨vals, r1, r2, r3, r4⟩ := const_case U results env rtA rtK hargs hkw ps (idx + 1) rest kvs' envr
         (fun q hq => hd q (mem_cons_of_mem _ hq)) e2 hall' hr
-      have hval : U.vals v := by
+      have hval : U.avals v := by
         rcases hsrc with h1 | ⟨n, h2⟩ | h3
         · exact hargs v h1
         · exact hkw n v h2
@@ -848,7 +848,7 @@ theorem argPairs_allSome {a : ArgCtx} {pa : List (String × Sg)} (h : argPairs a
 
 /-- the chain of an entry call -/
 theorem root_chain (U : Universe) {m : Nat} (W : World) {fn : Fn} (hU : U.fns fn) {args : List PyVal} {kwargs : List (String × PyVal)}
-    (hargs : ∀ a ∈ args, U.vals a) (hkw : ∀ kv ∈ kwargs, U.vals kv.2)
+    (hargs : ∀ a ∈ args, U.avals a) (hkw : ∀ kv ∈ kwargs, U.avals kv.2)
     {named : List (String × Option Sg)} (hn : getArgCtx m fn.params args kwargs = .ok named)
     {kvs : List (String × Sg)} (hall : allSome named = some kvs)
     {env : Env} (hb : bindRun fn.params (args.map RVal.py) (kwargs.map (fun kv => (kv.1, RVal.py kv.2))) 0 = some env) :
@@ -875,7 +875,7 @@ theorem Sound.sync {U : Universe} {m x : Nat} {S : PStore} (h : Sound U m x S) (
 
 /-- the request's arguments are values on which `dds_hash` is injective (`Universe.vals`) -/
 def Universe.request (U : Universe) (rq : Request) : Prop :=
-  (∀ a ∈ rq.args, U.vals a) ∧ (∀ kv ∈ rq.kwargs, U.vals kv.2)
+  (∀ a ∈ rq.args, U.avals a) ∧ (∀ kv ∈ rq.kwargs, U.avals kv.2)
 
 theorem withPath_retSig (f : FIS) (p : String) : (f.withPath p).retSig = f.retSig := rfl
 theorem withPath_subs (f : FIS) (p : String) : (f.withPath p).subs = f.subs := rfl
